@@ -595,6 +595,94 @@ def _worlds(spec, mon, rec):
                           '(the unlimited engine evaluated it first on the same context and gave %r)' % (text, n, out[1], first),
                           {'kind': 'nested', 'text': text, 'n': n})
 
+    # (d) a yaqlized host object's method handed lazy arguments: they reach the method as they are (still lazy, still
+    #     counted), whatever the method then consumes itself
+    from yaql import yaqlization
+
+    class Box:
+        def head(self, seq, k=2):
+            out = []
+            for x in seq:
+                out.append(x)
+                if len(out) >= k:
+                    break
+            return out
+
+        def ignore(self, seq):
+            return 7
+
+        def nested_first(self, seqs):
+            return [next(iter(x)) for x in seqs]
+    yaqlization.yaqlize(Box)
+    yeng = yq.engine({'yaql.limitIterators': n})
+    yctx_ = yaql.create_context()
+    for text in ('$box.head($src, 3)', '$box.ignore($src)', '$box.head($src.select($ + 1), 2)', '$box.nested_first([$src])',
+                 '$box.head(seq => $src)', '$box.ignore(generate(0, true, $ + 1))', '$box.head(generate(0, true, $ + 1), 3)',
+                 '$box.head($src.where($ mod 2 = 0))'):
+        src = hooks.CountingSource(None, name='$src')
+        src.hard_cap = max(400, 20 * n)
+        ctx = yctx_.create_child_context()
+        ctx['src'] = src
+        ctx['box'] = Box()
+        out = _timed_eval(yeng, text, ctx)
+        rec.count('src.cases')
+        rec.count('limit.yaqlized_method_cases')
+        rec.case(('yaqlized-method', text, n), nontrivial=True)
+        if out[0] in ('breach', 'timeout') or src.pulls > max(n + 1, 4):
+            rec.violation('lazy-source-overpulled:by=yaqlized-method-call', '%s with limitIterators=%d pulled %d items from a lazy argument '
+                          'of a yaqlized method whose own code reads at most 3 (outcome %s)' % (text, n, src.pulls, _short(out) if out[0] == 'value' or out[0] == 'exc' else out[0]),
+                          {'kind': 'yaqlized-method', 'text': text, 'n': n})
+    # (e) limits given to a copy of an engine, or per call, apply whatever the parent engine did before
+    used = yq.engine()
+    used('range(30).toList()').evaluate(context=mon.ctx.create_child_context())
+    used("'x' * 5000").evaluate(context=mon.ctx.create_child_context())
+    limits = {'yaql.limitIterators': n, 'yaql.memoryQuota': 2000}
+    fresh_parent = yq.engine()
+    for ename, make in (('copy-of-used-engine', lambda t: used.copy(limits)(t)), ('per-call-options-on-used-engine', lambda t: used(t, limits)),
+                        ('copy-of-fresh-engine', lambda t: fresh_parent.copy(limits)(t)),
+                        ('copy-of-limited-used-engine', lambda t: strict.copy({'yaql.limitIterators': -1, 'yaql.memoryQuota': -1}).copy(limits)(t))):
+        for text in ('range(%d).toList()' % (n + 5), "'x' * 5000", 'range(%d).select($).len()' % (n + 5)):
+            try:
+                out = ('value', make(text).evaluate(context=mon.ctx.create_child_context()))
+            except Exception as ex:
+                out = ('exc', ex)
+            rec.count('src.cases')
+            rec.count('limit.engine_copy_cases')
+            rec.case(('engine-copy', ename, text, n), nontrivial=True)
+            if out[0] == 'value':
+                rec.violation('limit-of-engine-copy-not-applied:%s' % ename, '%s on %s with limitIterators=%d / memoryQuota=2000 returned %s' % (
+                    text, ename, n, _short(out)), {'kind': 'engine-copy', 'text': text, 'n': n})
+    #     ... and the other way round: a copy that lifts the limits is not bound by what the parent cached
+    for text in ('range(%d).toList().len()' % (n + 5),):
+        try:
+            out = ('value', strict.copy({'yaql.limitIterators': -1, 'yaql.memoryQuota': -1})(text).evaluate(context=mon.ctx.create_child_context()))
+        except Exception as ex:
+            out = ('exc', ex)
+        rec.count('limit.engine_copy_cases')
+        if out != ('value', n + 5):
+            rec.violation('limit-of-engine-copy-not-applied:lifted', '%s on a copy of a limited, used engine that lifts the limits gave %s' % (
+                text, _short(out)), {'kind': 'engine-copy', 'text': text, 'n': n})
+
+
+def _timed_eval(eng, text, ctx, seconds=20):
+    import signal
+
+    def on_alarm(*a):
+        raise TimeoutError()
+    old = signal.signal(signal.SIGALRM, on_alarm)
+    signal.alarm(seconds)
+    try:
+        return ('value', eng(text).evaluate(context=ctx))
+    except hooks.PullBudgetBreached as e:
+        return ('breach', str(e))
+    except TimeoutError:
+        return ('timeout',)
+    except Exception as e:
+        return ('exc', e)
+    finally:
+        signal.alarm(0)
+        signal.signal(signal.SIGALRM, old)
+
 
 def _internal(spec, mon, rec):
     _worlds(spec, mon, rec)
